@@ -4,7 +4,6 @@
 #include "../common/engine.hpp"
 #include "../common/keygen.hpp"
 #include "pgm/pgm_index.hpp"
-#include <omp.h>
 #include <sstream>
 
 // The accessor befriended (under PGM_INDEX_VERIF) by the builder classes; defined by the harness.
@@ -365,7 +364,7 @@ CaseResult run_seg(const RunCtx &ctx, TapeReader &t, unsigned size_hint) {
 
     // ---------------------------------------------------------------- layer 1: make_segmentation_par over keys
     if (layer == 1) {
-        omp_set_num_threads(meta.threads);
+        vf_set_threads(meta.threads);
         std::vector<pgm::verif::SegSession<K>> sessions;
         std::vector<CS<K>> segs;
         pgm::verif::SegLog<K>::sink = &sessions;
@@ -456,7 +455,7 @@ CaseResult run_seg(const RunCtx &ctx, TapeReader &t, unsigned size_hint) {
     // ---------------------------------------------------------------- layer 2: PGMIndex levels (C04, integer keys)
     if constexpr (!is_fp)
         if (layer == 2) {
-            omp_set_num_threads(meta.threads);
+            vf_set_threads(meta.threads);
             std::vector<pgm::verif::SegSession<K>> sessions;
             auto run_cfg = [&](auto probe_tag) {
                 using Probe = typename decltype(probe_tag)::type;
